@@ -131,7 +131,13 @@ def form_case(ctx, form):
         if m["outcome"] == "ok":
             d = diff_obs(canon_obs(obs), canon_obs(m))
             if d:
-                ctx.mismatch("observation: " + d[:600], case, "see detail", "see detail")
+                # the model copies the open finding F47; a tree in which it is repaired agrees with the repaired variant
+                m2 = ctx.driver.call("choices.model", f47_fixed=True, **model_input(form))
+                if m2["outcome"] == "ok" and not diff_obs(canon_obs(obs), canon_obs(m2)):
+                    ctx.count("agrees-with-F47-repaired-model")
+                    ctx.notes["F47_repaired_in_tree"] = True
+                else:
+                    ctx.mismatch("observation: " + d[:600], case, "see detail", "see detail")
         elif m["outcome"] == "error":
             ctx.mismatch("model rejects (" + m["kind"] + "), implementation accepts", case, "ok", m["kind"])
             ctx.fail(Failure("accepted-" + m["kind"], f"workbook the model rejects with {m['kind']} was accepted", case))
@@ -147,6 +153,11 @@ def form_case(ctx, form):
 
 def oracle(ctx, case, form, obs):
     """The property's statements, evaluated by the Lean spec on the implementation's observation."""
+    ids = {i["id"] for i in obs["instances"]}
+    for rid in obs.get("reads", []):
+        if rid not in ids:
+            ctx.fail(Failure("instance-undeclared", f"the document reads instance('{rid}') but declares no instance of that id", case,
+                             extra={"site": "survey._generate_instances"}))
     v = ctx.driver.call("choices.holds", obs=canon_obs(obs), **model_input(form))
     if v.get("skipped"):
         ctx.count("oracle-skipped:" + v["skipped"])
@@ -343,7 +354,90 @@ def match_f42(f: Failure) -> bool:
     return len(set(normed)) < len(names)
 
 
+def last_saved_forms():
+    """`${last-saved#q}` in exactly one position per form (nothing else in the form names the last-saved instance)."""
+    ref = "${last-saved#q}"
+    base = [{"type": "text", "name": "q", "label": "Q"}]
+    ch = [{"list_name": "l", "name": "a", "label": "A"}, {"list_name": "l", "name": "b", "label": "B"}]
+    ext = [{"list_name": "towns", "name": "n0", "label": "N", "a": "1"}]
+    out = []
+    for col in ("default", "calculation", "constraint", "relevant", "required", "read_only"):
+        t = "calculate" if col == "calculation" else "text"
+        row = {"type": t, "name": "t", col: f"{ref} = 'a'" if col != "default" else ref}
+        if t == "text":
+            row["label"] = "T"
+        out.append({"survey": base + [row]})
+    for col in ("relevant", "constraint", "default"):
+        out.append({"survey": base + [{"type": "select_one l", "name": "s", "label": "S", col: (f"{ref} = 'a'" if col != "default" else ref)}], "choices": ch})
+    out.append({"survey": base + [{"type": "begin group", "name": "g", "label": "G", "relevant": f"{ref} = 'a'"},
+                                  {"type": "text", "name": "t", "label": "T"}, {"type": "end group"}]})
+    cf = f"name = {ref}"
+    out.append({"survey": base + [{"type": "select_one l", "name": "s", "label": "S", "choice_filter": cf}], "choices": ch})
+    out.append({"survey": base + [{"type": "select_multiple l", "name": "s", "label": "S", "choice_filter": cf,
+                                   "parameters": "randomize=true"}], "choices": ch})
+    out.append({"survey": base + [{"type": "rank l", "name": "s", "label": "S", "choice_filter": cf}], "choices": ch})
+    for f in ("f.csv", "d.xml", "g.geojson"):
+        out.append({"survey": base + [{"type": f"select_one_from_file {f}", "name": "s", "label": "S", "choice_filter": cf}]})
+    out.append({"survey": base + [{"type": "select_one l", "name": "s", "label": "S", "choice_filter": cf,
+                                   "appearance": "search('fruits')"}], "choices": ch})
+    out.append({"survey": base + [{"type": "select_one_external towns", "name": "s", "label": "S", "choice_filter": f"a = {ref}"}],
+                "external_choices": ext, "external_choices_cols": ["list_name", "name", "label", "a"]})
+    out.append({"survey": base + [{"type": "begin repeat", "name": "r", "label": "R"},
+                                  {"type": "select_one_external towns", "name": "s", "label": "S", "choice_filter": f"a = {ref}"},
+                                  {"type": "end repeat"}],
+                "external_choices": ext, "external_choices_cols": ["list_name", "name", "label", "a"]})
+    return out
+
+
+def param_case_forms(rng):
+    """from-file selects whose `value` / `label` parameters are typed with keys and values in mixed case: the
+    refs must be the column names as typed, whatever the case of the key."""
+    out = []
+    for f in ("f.csv", "d.xml", "g.geojson"):
+        for cmd in ("select_one_from_file", "select_multiple_from_file"):
+            kv = rng.choice(["value", "Value", "VALUE", "vAlue"])
+            kl = rng.choice(["label", "Label", "LABEL", "laBel"])
+            vv = rng.choice(["Ward_ID", "wardId", "ID", "code"])
+            vl = rng.choice(["Ward_Name", "nameEN", "Title", "lbl"])
+            parts = [f"{kv}={vv}", f"{kl}={vl}"]
+            if rng.random() < 0.5:
+                parts.append(rng.choice(["randomize=TRUE", "Randomize=true", "RANDOMIZE=True"]))
+            rng.shuffle(parts)
+            sep = rng.choice([" ", ", ", ";"])
+            if rng.random() < 0.3:
+                parts = parts[:1]
+            out.append({"survey": [{"type": "text", "name": "q", "label": "Q"},
+                                   {"type": f"{cmd} {f}", "name": "s", "label": "S", "parameters": sep.join(parts)}]})
+    return out
+
+
+F41_FORM = {
+    "survey": [{"type": "text", "name": "q", "label": "Q"},
+               {"type": "select_one l", "name": "s", "label": "S"},
+               {"type": "select_one_external towns", "name": "t", "label": "T", "choice_filter": "a=${q}"}],
+    "choices": [{"list_name": "l", "name": "a", "label": "\u201cA\u201d  b", "x": "it\u2019s"}],
+    "external_choices": [{"list_name": "towns", "name": "n0", "label": "\u201cOld\u201d Town", "a": "1"}],
+    "external_choices_cols": ["list_name", "name", "label", "a"],
+}
+F42_FORM = {"survey": [{"type": "text", "name": "q", "label": "Q"}],
+            "choices": [{"list_name": "a\tb", "name": "x", "label": "X"}, {"list_name": "a b", "name": "y", "label": "Y"}]}
+
+
+def directed(ctx):
+    """Seed-independent cases: one per open finding, the last-saved positions in isolation, mixed-case parameters."""
+    form_case(ctx, copy.deepcopy(F41_FORM))
+    ws_listname_case(ctx, copy.deepcopy(F42_FORM))
+    form_case(ctx, copy.deepcopy(F47_FORM))
+    for f in last_saved_forms():
+        ctx.count("directed:last-saved-position")
+        form_case(ctx, f)
+    for f in param_case_forms(ctx.rng):
+        ctx.count("directed:parameter-case")
+        form_case(ctx, f)
+
+
 def explore(ctx, factor, bs):
+    directed(ctx)
     rng = ctx.rng
     n = ctx.pick(2000, 40000) * factor
     big = not ctx.quick()
@@ -383,7 +477,24 @@ def match_f41(f: Failure) -> bool:
     return any(isinstance(v, str) and any(ch in v for ch in SMART_CHARS) for r in rows for v in r.values())
 
 
-MATCHERS = {"F41-smart-quotes-in-choice-cells": match_f41, "F42-list-names-whitespace-ids": match_f42}
+def match_f47(f: Failure) -> bool:
+    """The last-saved instance is read but not declared, and the only `${last-saved#…}` references of the form sit
+    in bind cells of `begin group` / `begin repeat` rows (any such reference on a question row declares it)."""
+    if not (f.kind == "instance-undeclared" and "__last-saved" in f.detail) and not (
+            f.kind == "external-decl" and "not declared" in f.detail and "__last-saved" in f.detail):
+        return False
+    rows = (f.case.get("form") or {}).get("survey", [])
+    in_sec = any("last-saved#" in str(v) for r in rows if str(r.get("type", "")).startswith("begin") for k, v in r.items())
+    in_q = any("last-saved#" in str(v) for r in rows if not str(r.get("type", "")).startswith(("begin", "end")) for k, v in r.items())
+    return in_sec and not in_q
+
+
+F47_FORM = {"survey": [{"type": "text", "name": "q", "label": "Q"},
+                       {"type": "begin repeat", "name": "r", "label": "R", "relevant": "${last-saved#q} = 'a'"},
+                       {"type": "text", "name": "t", "label": "T"}, {"type": "end repeat"}]}
+
+MATCHERS = {"F41-smart-quotes-in-choice-cells": match_f41, "F42-list-names-whitespace-ids": match_f42,
+            "F47-last-saved-in-section-bind": match_f47}
 
 
 def replay(ctx, payload, bs):
